@@ -1,22 +1,299 @@
 /-
-C16 — property theorems (statements only; helper lemmas live in Proofs*.lean).
+C16 — property theorems.  "Failed EVM calls leave no trace; value and gas are accounted exactly."
+
+All statements are about `exec` / `enterCall` / `enterCreate` of Model.lean and quantify over every program tree
+(`Prog`), every world, every context, every gas amount.  Since a sub-frame at any depth is itself an
+`enterCall` / `enterCreate` on the world reached at that point, "for every world" covers every depth.
+Helper lemmas are in ProofsGas / ProofsWorld / ProofsBalance / ProofsStatic.
 -/
-import YouVerif.C16.Model
+import YouVerif.C16.ProofsGas
+import YouVerif.C16.ProofsBalance
+import YouVerif.C16.ProofsStatic
 
 namespace YouVerif.C16
 
-/-- A CALL / CALLCODE / DELEGATECALL / STATICCALL frame that ends in an error or a revert leaves the whole
-    world (balances, storage, code, logs, created accounts, refund counter) exactly as it was. -/
+/-! ## 1. A failed frame leaves no trace -/
+
+/-- A CALL / CALLCODE / DELEGATECALL / STATICCALL frame (whatever body `run` executes, at any depth) that ends
+    in an error or a revert leaves the whole world — balances, nonces, storage, code, created accounts,
+    self-destruct marks, logs, refund counter — exactly as it was. -/
 theorem failed_call_no_trace (env : Env) (ctx : Ctx) (kind : Kind) (addr : Addr) (value gas : Nat) (w : World)
     (tr : List Ev) (run : Ctx → Nat → World → List Ev → Res)
     (h : (enterCall env ctx kind addr value gas w tr run).out.failed = true) :
     (enterCall env ctx kind addr value gas w tr run).w = w := by
   unfold enterCall at h ⊢
-  simp only at h ⊢
   split
   · rfl
   · split
     · rfl
-    · split <;> simp_all [Out.failed]
+    · rename_i h1 h2
+      simp only [h1, h2, if_false] at h
+      unfold callExit at h ⊢
+      split <;> simp_all [Out.failed]
+
+/-- A failed CREATE / CREATE2 frame leaves no trace either, except for what the code does before taking its
+    snapshot: the creator's nonce bump survives every failure that happens after the depth and balance checks. -/
+theorem failed_create_no_trace (env : Env) (ctx : Ctx) (addr : Addr) (value gas : Nat) (w : World)
+    (tr : List Ev) (run : Ctx → Nat → World → List Ev → Res)
+    (h : (enterCreate env ctx addr value gas w tr run).out.failed = true) :
+    (enterCreate env ctx addr value gas w tr run).w = w ∨
+    (enterCreate env ctx addr value gas w tr run).w = bumpNonce w ctx.self := by
+  unfold enterCreate at h ⊢
+  split
+  · exact Or.inl rfl
+  · split
+    · exact Or.inl rfl
+    · split
+      · exact Or.inr rfl
+      · rename_i h1 h2 h3
+        simp only [h1, h2, h3, if_false] at h
+        right
+        unfold createExit at h ⊢
+        split
+        · split
+          · rfl
+          · split
+            · rfl
+            · simp_all [Out.failed]
+        · rfl
+        · rfl
+        · simp_all [Out.failed]
+
+/-- The failures decided before the snapshot (call depth, insufficient balance) hand back all the gas. -/
+theorem early_failure_keeps_gas (env : Env) (ctx : Ctx) (kind : Kind) (addr : Addr) (value gas : Nat) (w : World)
+    (tr : List Ev) (run : Ctx → Nat → World → List Ev → Res)
+    (h : ctx.depth > env.maxDepth ∨ ((kind = .call ∨ kind = .callcode) ∧ w.balOf ctx.self < value)) :
+    (enterCall env ctx kind addr value gas w tr run).returned = gas ∧
+    (enterCall env ctx kind addr value gas w tr run).out.failed = true := by
+  unfold enterCall
+  rcases h with h | h
+  · simp [h, Out.failed]
+  · split
+    · simp [Out.failed]
+    · simp [Out.failed]
+
+/-- A whole message-call transaction whose EVM execution fails changes nothing. -/
+theorem failed_tx_no_trace (env : Env) (origin to : Addr) (value gas : Nat) (body : Prog) (w : World)
+    (h : (txCall env origin to value gas body w).out.failed = true) :
+    (txCall env origin to value gas body w).w = w :=
+  failed_call_no_trace env _ _ _ _ _ _ _ _ h
+
+/-! ## 2. A static call changes nothing -/
+
+/-- Whatever runs under a read-only context, and whatever its result, leaves the world unchanged up to
+    `StaticEq`: logs, refund counter and every live account are identical; the only thing that can happen is
+    that an address without a live object gets an empty one (`CreateAccount` in `evm.Call` for a zero-value
+    CALL), which `Finalise(true)` removes again. -/
+theorem static_changes_nothing (env : Env) (p : Prog) (ctx : Ctx) (gas : Nat) (w : World) (tr : List Ev)
+    (hs : ctx.static = true) (hl : (w.acct ctx.self).live = true) :
+    StaticEq w (exec env p ctx gas w tr).w :=
+  exec_static env p ctx gas w tr hs hl
+
+/-- A STATICCALL issued from any context (read-only or not), with any callee, succeeded or failed. -/
+theorem staticcall_changes_nothing (env : Env) (ctx : Ctx) (addr : Addr) (value gas : Nat) (w : World) (tr : List Ev)
+    (callee : Prog) :
+    StaticEq w (enterCall env ctx .static addr value gas w tr (exec env callee)).w :=
+  enterCall_static env ctx .static addr value gas w tr (exec env callee) (Or.inr rfl) (fun h => by cases h)
+    (fun h => absurd rfl h) (exec_static env callee)
+
+/-- ... and when no deleted object of an earlier transaction holds a balance (see `balance_resurrection_counterexample`
+    for why this is needed), every getter of the StateDB other than `Exist` answers the same afterwards. -/
+theorem staticcall_observably_nothing (env : Env) (ctx : Ctx) (addr : Addr) (value gas : Nat) (w : World) (tr : List Ev)
+    (callee : Prog) (hg : w.NoGhost) (a : Addr) :
+    let w' := (enterCall env ctx .static addr value gas w tr (exec env callee)).w
+    w'.balOf a = w.balOf a ∧ w'.nonceOf a = w.nonceOf a ∧ w'.codeOf a = w.codeOf a
+    ∧ (∀ k, w'.storOf a k = w.storOf a k) ∧ w'.hasSuicided a = w.hasSuicided a ∧ w'.isEmpty a = w.isEmpty a
+    ∧ w'.logs = w.logs ∧ w'.refund = w.refund := by
+  intro w'
+  have h := staticcall_changes_nothing env ctx addr value gas w tr callee
+  obtain ⟨a1, a2, a3, a4, a5, a6⟩ := h.getters hg a
+  exact ⟨a1, a2, a3, a4, a5, a6, h.logs, h.refund⟩
+
+/-! ## 3. Value is conserved -/
+
+/-- Exact conservation law of any frame body: Σ `data.Balance` over all cached objects (live or deleted by an
+    earlier transaction) plus the burnt counter (SELFDESTRUCT to self, deleted object overwritten) is invariant;
+    the finite-support invariant and `NoGhost` are preserved. -/
+theorem balance_conserved (env : Env) (p : Prog) (ctx : Ctx) (gas : Nat) (w : World) (tr : List Ev) (h : w.WF) :
+    Cons w (exec env p ctx gas w tr).w :=
+  exec_cons env p ctx gas w tr h
+
+/-- The same for a whole message-call transaction ... -/
+theorem balance_conserved_tx (env : Env) (origin to : Addr) (value gas : Nat) (body : Prog) (w : World) (h : w.WF) :
+    Cons w (txCall env origin to value gas body w).w :=
+  enterCall_cons env _ _ _ _ _ _ _ h (exec_cons env body)
+
+/-- ... and a contract-creation transaction. -/
+theorem balance_conserved_create_tx (env : Env) (origin : Addr) (value gas : Nat) (init : Prog) (w : World) (h : w.WF) :
+    Cons w (txCreate env origin value gas init w).w :=
+  enterCreate_cons env _ _ _ _ _ _ h (exec_cons env init)
+
+theorem liveTotal_eq_total {w : World} (hg : w.NoGhost) : w.liveTotal = w.total := by
+  unfold World.liveTotal World.total
+  congr 1
+  apply List.map_congr_left
+  intro a _
+  unfold World.balOf
+  split
+  · rfl
+  · rename_i hl
+    exact (hg a (by simpa using hl)).symm
+
+/-- The property as stated — the sum of the balances a dump shows changes only by the value burnt through
+    self-destructs — holds for every transaction that starts from a world in which no deleted object holds a
+    balance (e.g. the first transaction of a block). -/
+theorem balance_conserved_live (env : Env) (origin to : Addr) (value gas : Nat) (body : Prog) (w : World)
+    (h : w.WF) (hg : w.NoGhost) :
+    (txCall env origin to value gas body w).w.liveTotal + (txCall env origin to value gas body w).w.burnt
+      = w.liveTotal + w.burnt := by
+  have c := balance_conserved_tx env origin to value gas body w h
+  rw [liveTotal_eq_total hg, liveTotal_eq_total (c.ghost hg)]
+  exact c.sum
+
+/-- Finalise(true) keeps every balance in the cache: accounts it deletes keep their `data.Balance`. -/
+theorem finalise_keeps_cached_balances (w : World) : w.finalise.total = w.total := by
+  unfold World.finalise World.total
+  simp only
+  congr 1
+  apply List.map_congr_left
+  intro a _
+  unfold Acct.finalise
+  split <;> rfl
+
+/-! ### The property is false of the code across transactions of one block (known finding F-C16a) -/
+
+namespace Witness
+def O : Addr := 0xa1
+def B : Addr := 0xe1
+def Y : Addr := 0xc0
+def X : Addr := 0xc1
+def Z : Addr := 0xc2
+def env : Env := ⟨1024, fun _ _ => 0, fun _ _ _ => 0⟩
+def contract (bal : Nat) : Acct := ⟨true, 1, bal, [0xff], fun _ => 0, fun _ => 0, false⟩
+/-- genesis: no deleted objects at all -/
+def w0 : World :=
+  ((((World.init.set O (Acct.fresh 1000)).set B (Acct.fresh 777)).set Y (contract 100)).set X (contract 3)).set Z (contract 7)
+/-- Y: CALL X (X self-destructs to B), then CALL Z (Z self-destructs its 7 wei to X) -/
+def bodyY : Prog :=
+  .call .call 0 0 X 0 100000 (.selfdestruct 0 B) (.call .call 0 0 Z 0 100000 (.selfdestruct 0 X) (.stop 0))
+def tx1 : FrameRes := txCall env O Y 0 300000 bodyY w0
+def w1 : World := tx1.w.finalise
+/-- second transaction of the block: 5 wei sent to X -/
+def tx2 : FrameRes := txCall env O X 5 100000 (.stop 0) w1
+end Witness
+
+open Witness in
+/-- Concrete witness (replayed on the real code: corpus/C16/deleted-balance-resurrected.replay, probe F-C16a):
+    both transactions succeed, the second executes no code at all, and yet the balances a dump shows grow by the
+    7 wei that were destroyed with X at the end of the first transaction. -/
+theorem balance_resurrection_counterexample :
+    w0.WF ∧ w0.NoGhost ∧ tx1.out = .ok [] ∧ tx2.out = .ok []
+    ∧ w1.liveTotal = 1880 ∧ tx2.w.liveTotal = 1887 ∧ tx2.w.burnt = w1.burnt ∧ tx2.w.balOf X = 12 := by
+  refine ⟨⟨by decide, ?_⟩, ?_, by decide, by decide, by decide, by decide, by decide, by decide⟩
+  · intro a ha
+    have hdom : w0.dom = [Z, X, Y, B, O] := by decide
+    rw [hdom] at ha
+    simp only [List.mem_cons, List.not_mem_nil, or_false, not_or] at ha
+    obtain ⟨h1, h2, h3, h4, h5⟩ := ha
+    simp [w0, World.set, World.init, h1, h2, h3, h4, h5, Acct.none]
+  · intro a
+    simp only [w0, World.set, World.init]
+    repeat' split
+    all_goals simp [contract, Acct.fresh, Acct.none]
+
+/-- Hence the conservation statement without the `NoGhost` hypothesis is false of the model of the code. -/
+theorem balance_conserved_live_needs_NoGhost :
+    ¬ (∀ (env : Env) (origin to : Addr) (value gas : Nat) (body : Prog) (w : World), w.WF →
+        (txCall env origin to value gas body w).w.liveTotal + (txCall env origin to value gas body w).w.burnt
+          = w.liveTotal + w.burnt) := by
+  intro h
+  have c1 := balance_conserved_tx Witness.env Witness.O Witness.Y 0 300000 Witness.bodyY Witness.w0
+    balance_resurrection_counterexample.1
+  have hwf : Witness.w1.WF := by
+    obtain ⟨hn, hz⟩ := c1.wf
+    exact ⟨hn, fun a ha => by
+      have := hz a ha
+      show ((Witness.tx1.w.acct a).finalise).bal = 0
+      unfold Acct.finalise; split <;> exact this⟩
+  have := h Witness.env Witness.O Witness.X 5 100000 (.stop 0) Witness.w1 hwf
+  obtain ⟨_, _, _, _, h5, h6, h7, _⟩ := balance_resurrection_counterexample
+  change Witness.tx2.w.liveTotal + Witness.tx2.w.burnt = Witness.w1.liveTotal + Witness.w1.burnt at this
+  omega
+
+/-! ## 4. Gas returned never exceeds gas supplied -/
+
+/-- A frame body never ends with more gas than it started with. -/
+theorem gas_monotone (env : Env) (p : Prog) (ctx : Ctx) (gas : Nat) (w : World) (tr : List Ev) :
+    (exec env p ctx gas w tr).gas ≤ gas :=
+  exec_gas_le env p ctx gas w tr
+
+/-- A CALL-family frame hands back at most what it was given (`gas` is what `evm.Call` receives: the forwarded
+    amount plus the 2300 stipend of a value-bearing call). -/
+theorem gas_monotone_call (env : Env) (ctx : Ctx) (kind : Kind) (addr : Addr) (value gas : Nat) (w : World)
+    (tr : List Ev) (callee : Prog) :
+    (enterCall env ctx kind addr value gas w tr (exec env callee)).returned ≤ gas :=
+  enterCall_returned_le env ctx kind addr value gas w tr _ (exec_gas_le env callee)
+
+theorem gas_monotone_create (env : Env) (ctx : Ctx) (addr : Addr) (value gas : Nat) (w : World)
+    (tr : List Ev) (init : Prog) :
+    (enterCreate env ctx addr value gas w tr (exec env init)).returned ≤ gas :=
+  enterCreate_returned_le env ctx addr value gas w tr _ (exec_gas_le env init)
+
+/-- The caller never gains gas from a call, stipend included: what it keeps plus what it hands over (with the
+    stipend) is at most what it had, so after the callee returned it holds at most what it held before. -/
+theorem caller_never_gains (env : Env) (ctx : Ctx) (kind : Kind) (pre mem : Nat) (addr : Addr) (value gasSpec gas : Nat)
+    (w : World) (tr : List Ev) (callee : Prog) (kept given : Nat)
+    (h : callCharge ctx kind pre mem addr value gasSpec gas w = .ok (kept, given)) :
+    kept + (enterCall env ctx kind addr value given w tr (exec env callee)).returned ≤ gas := by
+  have h1 := callCharge_le h
+  have h2 := gas_monotone_call env ctx kind addr value given w tr callee
+  omega
+
+theorem creator_never_gains (env : Env) (ctx : Ctx) (is2 : Bool) (pre hashCost : Nat) (addr : Addr) (value gas : Nat)
+    (w : World) (tr : List Ev) (init : Prog) (kept given : Nat)
+    (h : createCharge ctx is2 pre hashCost gas = .ok (kept, given)) :
+    kept + (enterCreate env ctx addr value given w tr (exec env init)).returned ≤ gas := by
+  have h1 := createCharge_le h
+  have h2 := gas_monotone_create env ctx addr value given w tr init
+  omega
+
+/-- An error other than REVERT burns everything the frame was given. -/
+theorem error_burns_all_gas (env : Env) (ctx : Ctx) (kind : Kind) (addr : Addr) (value gas : Nat) (w : World)
+    (tr : List Ev) (run : Ctx → Nat → World → List Ev → Res) (e : Err)
+    (h : (enterCall env ctx kind addr value gas w tr run).out = .err e) (he : e ≠ .depth ∧ e ≠ .balance) :
+    (enterCall env ctx kind addr value gas w tr run).returned = 0 := by
+  unfold enterCall at h ⊢
+  split
+  · rename_i h1; simp only [h1, if_true] at h; cases h; exact absurd rfl he.1
+  · split
+    · rename_i h1 h2; simp only [h1, h2, if_false] at h; cases h; exact absurd rfl he.2
+    · rename_i h1 h2
+      simp only [h1, h2, if_false] at h
+      unfold callExit at h ⊢
+      split <;> simp_all
+
+/-! ## Non-vacuity: the hypotheses above are met by concrete, non-trivial instances (tests on literals) -/
+
+open Witness in
+/-- a frame that really fails after writing storage: the hypothesis of `failed_call_no_trace` holds -/
+example : (txCall env O Y 0 300000 (.sstore 6 1 5 (.revert 0 [1, 2])) w0).out.failed = true := by decide
+
+open Witness in
+/-- an out-of-gas failure in a nested frame, caller continues and succeeds -/
+example : (txCall env O Y 0 300000 (.call .call 0 0 X 0 5 (.sstore 6 1 5 (.stop 0)) (.stop 0)) w0).out = .ok [] := by decide
+
+open Witness in
+/-- the empty world and the witness genesis are well-formed and ghost-free -/
+example : World.init.WF ∧ World.init.NoGhost := ⟨⟨by decide, fun _ _ => rfl⟩, fun _ _ => rfl⟩
+
+open Witness in
+/-- a callCharge that succeeds with a stipend (hypothesis of `caller_never_gains`) -/
+example : (match callCharge ⟨Y, false, 1⟩ .call 21 0 X 1 0 100000 w0 with
+    | .ok (kept, given) => kept == 87979 && given == 4600
+    | .error _ => false) = true := by decide
+
+open Witness in
+/-- a read-only context with a live executing account (hypotheses of `static_changes_nothing`) -/
+example : (w0.acct Y).live = true := by decide
 
 end YouVerif.C16
